@@ -907,10 +907,112 @@ pub fn gen_case<'a>(w: &Workload<'a>, workload: &str, seed: u64, index: u64) -> 
 	}
 }
 
+
+/// Public keys rcgen did not make, handed over as SubjectPublicKeyInfo: curves and key types outside the supported set
+/// (secp256k1, brainpool, P-224, P-192, P-521 under ring, Ed448, X25519/X448, DSA-less oddities) next to the supported
+/// ones as controls. `SubjectPublicKeyInfo::from_der` may refuse; if it accepts, a certificate issued for that key must
+/// carry exactly the bytes that were handed in.
+pub fn foreign_subject_keys(ctx: &Ctx, w: &Workload<'_>) {
+	use openssl::ec::{EcGroup, EcKey};
+	use openssl::nid::Nid;
+	use openssl::pkey::PKey;
+	let mut inputs: Vec<(String, Vec<u8>)> = Vec::new();
+	let curves = [
+		("prime256v1", Nid::X9_62_PRIME256V1),
+		("secp384r1", Nid::SECP384R1),
+		("secp521r1", Nid::SECP521R1),
+		("secp256k1", Nid::SECP256K1),
+		("secp224r1", Nid::SECP224R1),
+		("prime192v1", Nid::X9_62_PRIME192V1),
+		("brainpoolP256r1", Nid::BRAINPOOL_P256R1),
+		("brainpoolP384r1", Nid::BRAINPOOL_P384R1),
+		("brainpoolP512r1", Nid::BRAINPOOL_P512R1),
+		("secp384r1-b", Nid::SECP384R1),
+		("prime256v1-b", Nid::X9_62_PRIME256V1),
+	];
+	for (name, nid) in curves {
+		let k = EcGroup::from_curve_name(nid).and_then(|g| EcKey::generate(&g)).and_then(PKey::from_ec_key).and_then(|k| k.public_key_to_der());
+		match k {
+			Ok(d) => inputs.push((format!("ec:{}", name), d)),
+			Err(_) => ctx.count("foreign-spki:curve-unavailable-in-openssl"),
+		}
+	}
+	for (name, k) in [("ed25519", PKey::generate_ed25519()), ("ed448", PKey::generate_ed448()), ("x25519", PKey::generate_x25519()), ("x448", PKey::generate_x448())] {
+		if let Ok(d) = k.and_then(|k| k.public_key_to_der()) {
+			inputs.push((name.to_string(), d));
+		}
+	}
+	// an RSA key under its usual identifier, under rsaEncryption without the NULL parameter, and under id-RSASSA-PSS
+	if let Some(k) = w.pool.iter().find(|k| k.spki.len() > 200 && !k.is_remote()) {
+		inputs.push(("rsa".into(), k.spki.clone()));
+		let with_null = [0x30, 0x0d, 0x06, 0x09, 0x2a, 0x86, 0x48, 0x86, 0xf7, 0x0d, 0x01, 0x01, 0x01, 0x05, 0x00];
+		if let Some(pos) = k.spki.windows(with_null.len()).position(|x| x == with_null) {
+			let rest = &k.spki[pos + with_null.len()..];
+			for (name, alg) in [
+				("rsa-no-null", vec![0x30, 0x0b, 0x06, 0x09, 0x2a, 0x86, 0x48, 0x86, 0xf7, 0x0d, 0x01, 0x01, 0x01]),
+				("rsa-pss-oid", vec![0x30, 0x0b, 0x06, 0x09, 0x2a, 0x86, 0x48, 0x86, 0xf7, 0x0d, 0x01, 0x01, 0x0a]),
+			] {
+				let mut body = alg;
+				body.extend_from_slice(rest);
+				let mut d = vec![0x30, 0x82, (body.len() >> 8) as u8, body.len() as u8];
+				d.extend_from_slice(&body);
+				inputs.push((name.into(), d));
+			}
+		}
+	}
+	let mut order: Vec<usize> = (0..inputs.len()).collect();
+	// two passes in different orders: the answer for one key must not depend on the key seen before it
+	let mut rng = Rng::new(ctx.seed ^ 0xf0e1);
+	for pass in 0..3u64 {
+		if pass > 0 {
+			for i in (1..order.len()).rev() {
+				order.swap(i, rng.below(i as u64 + 1) as usize);
+			}
+		}
+		for (n, &ix) in order.iter().enumerate() {
+			let (name, der) = &inputs[ix];
+			let id = CaseId::new("foreign-spki", ctx.seed, pass * 100 + n as u64);
+			let text = format!("foreign SubjectPublicKeyInfo {} = {} (pass {}, position {})", name, hex(der), pass, n);
+			ctx.count("eval:foreign-spki");
+			let spki = match crate::guard(|| SubjectPublicKeyInfo::from_der(der)) {
+				Err(p) => {
+					ctx.violation("c02:foreign-spki-panic", &id, &text, &p);
+					continue;
+				},
+				Ok(Err(_)) => {
+					ctx.count(&format!("foreign-spki:refused:{}", name));
+					continue;
+				},
+				Ok(Ok(s)) => s,
+			};
+			ctx.count(&format!("foreign-spki:accepted:{}", name));
+			let iss = &w.issuers[(pass as usize + n) % w.issuers.len()];
+			let mut params = CertificateParams::default();
+			params.distinguished_name.push(rcgen::DnType::CommonName, format!("foreign key {}", name));
+			match crate::guard(|| params.signed_by(&spki, &iss.cert, &iss.key.kp).map_err(|e| e.to_string())) {
+				Err(p) => ctx.violation("c02:foreign-spki-panic", &id, &text, &p),
+				Ok(Err(_)) => ctx.count("foreign-spki:issuance-refused"),
+				Ok(Ok(cert)) => match x509::parse_certificate(cert.der()) {
+					Err(e) => ctx.violation("c02:foreign-spki-undecodable", &id, &text, &e),
+					Ok(v) => {
+						ctx.count("foreign-spki:issued");
+						if v.spki.raw != *der {
+							ctx.violation("c02:foreign-spki-relabelled", &id, &text, &format!("the certificate carries {} for the key that was handed in", hex(&v.spki.raw)));
+						}
+					},
+				},
+			}
+		}
+	}
+}
+
 pub const WORKLOADS: [&str; 8] = ["lattice", "ku", "prefix", "pathlen", "kid", "keys", "huge", "random"];
 
 /// Run the certificate workload for one property.
 pub fn run(ctx: &Ctx, prop: Prop, w: &Workload<'_>, n_random: u64) {
+	if prop == Prop::C02 && ctx.replay.as_ref().map_or(true, |r| r.workload == "foreign-spki") {
+		foreign_subject_keys(ctx, w);
+	}
 	for wl in WORKLOADS {
 		if let Some(r) = &ctx.replay {
 			if r.workload != wl {
